@@ -432,14 +432,26 @@ def check_C49(ctx):
 
 META = {
     "C02": {
-        "level_text": "Exhaustive TLC exploration of the bounded Resources state machine (3 resources, 2 variable slots, 1 account x 2 paths, optional/array/dictionary fields, nesting depth 2, <=3 operations per transaction, <=2 transactions; a second configuration adds double transfers and loss-guard failures) with the invariants created = destroyed (+) located, one place per resource, one resource per place, exactly one destroy event per destroyed declaring resource, and the action property 'a uuid never leaves destroyed'. Every transition of these graphs plus hundreds (quick) / thousands (thorough) of simulated 60-step histories on larger constants (14 resources, 3 slot representations, 2 accounts, direct nested-to-nested moves, moves through functions, swaps, double transfers) is replayed on the real runtime under interpreter and VM: the description of every slot and storage path is compared after every single operation, and after every committed transaction the generated uuids, the multiset of ResourceDestroyed events (id and uuid), the population (id, uuid, location path) read by a fresh script and the resources decoded from the committed ledger are compared with the model.",
-        "level_note": "Trusted: TLC, the Go renderer from model labels to Cadence, the repo's test ledger/interface as host. Bounded model: one resource interface with two implementations, nesting depth <= 2, <= 3 array elements, 2 dictionary keys; contract fields and attachments as resource locations are not in this model (attachments: C49).",
+        "level_text": "Exhaustive TLC exploration of bounded configurations of the Resources state machine (A: 3 resources, 1 variable slot, 1 account x 1 path, optional/array/dictionary fields, nesting depth 2, <=2 operations per transaction, any number of transactions, loss-guard failures; B: 2 resources, 2 slots represented as an optional variable and a local-dictionary entry, 2 paths, <=3 operations per transaction, any number of transactions, swaps, double transfers `let a <- b <- c`, loss-guard failures; thorough adds C: 3 resources, 2 slots, 2 paths) with the invariants created = destroyed (+) located, one place per resource, one resource per place, well-formed nesting, exactly one destroy event per destroyed declaring resource, and the action properties 'a uuid never leaves destroyed' and 'only Commit changes committed state'. Every transition of these graphs plus hundreds (quick) / thousands (thorough) of simulated 60-step histories on larger constants (14 resources, 3 slot representations incl. a local array, 2 accounts x 2 paths, 3 array elements, 2 dictionary keys, direct nested-to-nested moves, moves through a function call, put-back into the same place, swaps, double transfers, creation directly into nested places, small and slab-sized payloads) is replayed on the real runtime under interpreter and VM: the description of every slot and storage path is compared after every single operation, loss-guard failures must be ResourceLossError/OverwriteError and leave no write, and after every committed transaction the number of generated uuids, the multiset of ResourceDestroyed events (model id and uuid), the population (id, uuid, location path) read by a fresh script and the resource uuids decoded from the committed ledger are compared with the model.",
+        "level_note": "Trusted: TLC, the Go renderer from model labels to Cadence (harness/cmd/res), the repo's test ledger/interface as host. Bounded model: one resource interface with two implementations (one declares ResourceDestroyed, one does not), nesting depth <= 2, <= 3 array elements, 2 dictionary keys; contract fields as resource locations are not modelled; attachments as locations are in C49's model. The property quantifies over successful executions: a transaction the model expects to succeed but the storage layer refuses (one such case found, see known/res.json) is reported separately from duplication/loss.",
         "technique": "TLA+ spec (Resources.tla) model-checked with TLC; spec behaviours (transition cover + simulation) replayed into the real runtime and compared step by step",
         "design_ref": "DESIGN.md section 5 C02", "engine": "E2 replay",
     },
+    "C04": {
+        "level_text": "Refs.tla extends Resources.tla with reference variables: ephemeral references (to a resource in a variable slot, or nested at any depth below a slot or a storage path) carry a validity flag that every Resources step clears for exactly the references into what the step transferred or destroyed (with everything nested in it); storage references (borrow<&T> or a reference to the root value of a path) resolve (account, path) at every use against the borrowed type. TLC checks on the exhaustive configuration (2 resources, 2 slots, 1 path, optional/array/dictionary fields, 1 reference variable, <=4 operations per transaction, any number of transactions) the invariants 'a usable reference points to a live resource', 'no references outside a transaction' and the action properties 'a surviving reference's chain of containers did not change', 'a step invalidates exactly the references into what it moved', 'invalidation is for ever'. Every transition of that graph plus simulated 60-step histories (14 resources, nesting depth 2, 3 reference variables, 3 borrow types, moves of the referenced resource / of a container of it / swaps / double transfers / destroy / save / load / through a function) is replayed on both engines; every UseRef is a member read through the reference: it must log the predicted id, or fail with InvalidatedResourceReferenceError exactly when the model says invalidated, DereferenceError when the path is empty or holds another type, StoredValueTypeMismatchError on a mistyped borrow.",
+        "level_note": "Trusted: TLC, renderer, test host. References live inside one transaction (they cannot be stored). A reference is always bound to a variable before its members are indexed. Attachment references are not in this model. Invalidation of nested values that were never loaded is reached only through histories that re-load from storage between transactions (every transaction starts from a fresh Storage).",
+        "technique": "TLA+ spec (Refs.tla over Resources.tla) model-checked with TLC; spec behaviours (transition cover + simulation) replayed into the real runtime, every reference use compared",
+        "design_ref": "DESIGN.md section 5 C04", "engine": "E2 replay",
+    },
+    "C49": {
+        "level_text": "Attachments.tla: bases with at most one attachment per type by construction (base -> type -> tag), fresh tag per attach. TLC checks on exhaustive configurations (1 base / 2 attachment types / 3 tags / <=3 operations per transaction incl. entitled access; 2 bases / 2 tags / <=2 operations; struct side: 2 struct variables, 1 stored struct, <=4 operations) that attachments exist only on live bases, every live attachment is a distinct instance, no destroyed instance is attached again, attachments travel (only attach/remove/destroy change them) and removed instances never come back. Every transition plus simulated 60-step histories (8 bases, 3 slots incl. a local array, 2 paths, struct attachments with copies/field writes/save/load) is replayed on both engines: attach (moves the base through the attach expression; a duplicate must fail with DuplicateAttachmentError and leave storage untouched), access `b[A]` on owned values and through borrowed references with `self.tag`, `base.id`, `base.uuid` observed, entitled attachment function through an authorized reference, forEachAttachment (set of types), remove (event, no-op when absent), moves through variables/arrays/storage, destroy of the base (events of each attachment with `base.id` + the base's event); the description of every slot/struct variable/storage path is compared after every step and storage is re-read by a fresh script after every commit. A slice of the histories is additionally replayed on a variant of the contract whose base type declares an entitled member.",
+        "level_note": "Trusted: TLC, renderer, test host. One resource base type with two resource attachment types and one struct base type with one struct attachment type; entitlement *mappings* on attachments are not modelled (entitled attachment functions through authorized references are). Known finding on the VM for the entitled-base variant (known/res.json).",
+        "technique": "TLA+ spec (Attachments.tla) model-checked with TLC; spec behaviours (transition cover + simulation) replayed into the real runtime and compared step by step",
+        "design_ref": "DESIGN.md section 5 C49", "engine": "E2 replay",
+    },
     "C23": {
-        "level_text": "The histories of Resources.tla (transition cover of the exhaustive configurations + simulated 60-step histories with overwrite by load+save, loads into another account, destruction of stored resources with nested arrays/dictionaries/optionals, removal of nested values through storage references, small and slab-sized payloads) are executed on the real runtime under both engines; at every model Commit a fresh runtime.Storage is built over a read-only view of the committed registers, every slab register is loaded, Storage.CheckHealth (atree.CheckStorageHealth + root reconciliation) is run, every stored value of every domain is decoded down to its leaves, and the number of stored root values per account and the set of resource uuids found are compared with the model.",
-        "level_note": "Slab-level structure is NOT modelled: health is an implementation invariant monitored at every Commit of model-generated histories; the model supplies the histories and the expected population. Trusted: TLC, renderer, atree's own health check. harness/health is reusable by other drivers (health.Check(w)).",
+        "level_text": "The histories of Resources.tla (transition cover of the exhaustive configurations + simulated 60-step histories with overwrite by load+save, loads into another account, destruction of stored resources with nested arrays/dictionaries/optionals, removal and insertion of nested values through storage references, double transfers into stored containers, small and slab-sized payloads) are executed on the real runtime under both engines with the runtime's own atree validation OFF (production configuration); at every model Commit a fresh runtime.Storage is built over a read-only view of the committed registers, every slab register is loaded, Storage.CheckHealth (atree.CheckStorageHealth over all slabs + 'every root slab is an account storage map') is run, every stored value of every domain is decoded and walked down to its leaves, and the number of stored root values per account and the set of resource uuids found are compared with the model. Internal errors during these histories are reported too.",
+        "level_note": "Slab-level structure is NOT modelled: health is an implementation invariant monitored at every Commit of model-generated histories; the model supplies the histories and the expected population (which catches leaks that the health check alone would call garbage-free). Trusted: TLC, renderer, atree's own health check. harness/health (health.Check(w *host.World) error, health.Inspect) is reusable by other drivers; it was negative-controlled by dropping, orphaning and truncating slab registers.",
         "technique": "TLA+ spec (Resources.tla) histories replayed into the real runtime with the storage-health monitor evaluated at every model Commit",
         "design_ref": "DESIGN.md section 5 C23", "engine": "E2 replay + monitor",
     },
